@@ -574,7 +574,7 @@ func thorough() []Scope {
 			return w
 		}
 	}
-	for s := 0; s < 2; s++ {
+	for s := 0; s < 4; s++ {
 		add(fmt.Sprintf("S-seed%d-dev2", s), fw.Deviations(2), seedGen(s))
 	}
 	// S-three: three policies at once from a reduced alphabet (union over three policies, mixed namespaces and directions)
